@@ -410,7 +410,9 @@ class World(object):
             return
         keep = getattr(integ, "solver_dict_keep_keys", None)
         if self.knobs.get("retry_cap") is not None and keep is not None:
-            sd["num_step_retries"] = int(self.knobs["retry_cap"])
+            only = self.knobs.get("retry_cap_ops")
+            in_force = only is None or self.op_index in only
+            sd["num_step_retries"] = int(self.knobs["retry_cap"]) if in_force else 64
             keep.add("num_step_retries")
         if self.knobs.get("newton_cap") is not None and keep is not None and "newton_iterations" in sd:
             sd["newton_iterations"] = int(self.knobs["newton_cap"])
@@ -471,6 +473,8 @@ class World(object):
         exc = None
         kind = op["op"]
         sysm = self.system
+        if self.knobs.get("retry_cap_ops") is not None:
+            self.apply_knobs()          # a retry cap that is in force for some ops only
         self.cur_events = None
         self.cur_op = op
         if kind == "integrate":
